@@ -24,6 +24,8 @@ class Spec:
         self.kind, self.bases, self.prio, self.maps = [], [], [], []
         self.objty = {}
         self.raises = {}
+        self.reacts = {}          # (obj, method, k) -> entity the callback passes to delete_entity
+        self.forgotten = set()    # objects the program has dropped its references to
         self.ops = []
         self.ents = []
         self.sweeps = []
@@ -53,6 +55,8 @@ class Spec:
                 self.objty[int(t[1])] = int(t[2].split('=')[1])
             elif t[0] == 'raise':
                 self.raises[(int(t[1]), t[2], int(t[3]))] = t[4]
+            elif t[0] == 'react':
+                self.reacts[(int(t[1]), t[2], int(t[3]))] = int(t[5])
             elif t[0] == 'ents':
                 self.ents = [int(x) for x in split_list(t[1])]
             elif t[0] == 'op':
@@ -102,6 +106,12 @@ class Spec:
         k = self.calls.get((o, meth), 0)
         self.calls[(o, meth)] = k + 1
         out.append(f'cb {o} {meth} {arg}')
+        x = self.reacts.get((o, meth, k))
+        if x is not None and x not in self.dead:
+            # the callback itself calls delete_entity(x): from now on x does not exist any more, its
+            # components go at the start of the NEXT process() (if the running sweep still reaches x,
+            # being awaiting deletion already, x goes now and the mark goes with it)
+            self.dead.append(x)
         exc = self.raises.get((o, meth, k))
         if exc:
             raise ScriptedRaise(exc)
@@ -294,6 +304,9 @@ class Spec:
             self.procs.remove(choice)
             self.detach_events(choice, None, out)
             return str(choice)
+        if k == 'forget':
+            self.forgotten.add(int(t[1]))
+            return '-'
         if k == 'enable':
             self.enabled = bool(int(t[1]))
             while self.enabled and self.pending:
@@ -442,6 +455,8 @@ class Spec:
         for o in self.registered:
             self.known |= set(self.mapping(o) or {})
         for o, v in ctl.items():
+            if v == 'collected':
+                continue
             if v == 'None':
                 self.ctl.pop(o, None)
             else:
@@ -526,6 +541,20 @@ class Spec:
                 if int(t[2]) != int(o in self.registered):
                     raise Mismatch('registered-iff-attached', f'is_handler({o}) = {t[2]}, required '
                                    f'{int(o in self.registered)}')
+            elif tag == 'alive':
+                # C10: the world never keeps an object alive that it does not hold as a component or
+                # processor (a postponed lifecycle callback naming it may, until it is delivered)
+                o = int(t[1])
+                held = any(o in row.values() for row in self.attached.values()) or o in self.procs
+                pending = any(p[0] == 'life' and p[2] == o for p in self.pending)
+                if held and t[2] != '1':
+                    raise Mismatch('collected-while-attached', f'object {o} is attached but was collected')
+                if not held and not pending and t[2] != '0':
+                    raise Mismatch('kept-alive', f'object {o} is neither a component nor a processor of the '
+                                   'world and the program dropped it, yet it is still alive')
+            elif tag == 'ctl' and t[2] == 'collected':
+                if int(t[1]) not in self.forgotten:
+                    raise Mismatch('shape', f'{ln}: the object was never forgotten')
             elif tag == 'ctl':
                 o = int(t[1])
                 w = str(self.ctl.get(o, 'None'))
